@@ -4,6 +4,7 @@
 package flight
 
 import (
+	_ "embed"
 	"encoding/json"
 	"errors"
 	"fmt"
@@ -96,9 +97,11 @@ type op struct {
 	Outcome outcome `json:"outcome,omitempty"`
 	Ms      int     `json:"ms,omitempty"`
 	DelOK   bool    `json:"del_ok,omitempty"`
-	Corrupt string  `json:"corrupt,omitempty"` // none | junk | st1 | immortal | expired | hit:<rid> | hfp
-	ReadOK  bool    `json:"read_ok,omitempty"`
-	WriteOK bool    `json:"write_ok,omitempty"`
+	// AllCaches: purge without a cache name
+	AllCaches bool   `json:"all_caches,omitempty"`
+	Corrupt   string `json:"corrupt,omitempty"` // none | junk | st1 | immortal | expired | hit:<rid> | hfp
+	ReadOK    bool   `json:"read_ok,omitempty"`
+	WriteOK   bool   `json:"write_ok,omitempty"`
 }
 
 type thread struct {
@@ -111,6 +114,7 @@ type thread struct {
 }
 
 type world struct {
+	url      string // the request URL of this case (one key per case)
 	key      []byte
 	storeURL string
 	hasStore bool
@@ -180,7 +184,7 @@ func (w *world) arrive(pass bool) {
 	if pass {
 		method = "POST"
 	}
-	req := httptest.NewRequest(method, "http://example.com/res?x=1", nil)
+	req := httptest.NewRequest(method, w.url, nil)
 	c := elton.NewContext(httptest.NewRecorder(), req)
 	c.Next = func() error {
 		th.mu.Lock()
@@ -337,13 +341,26 @@ func (w *world) corrupt(kind string, now int64) string {
 	}
 }
 
-func runCase(t *testing.T, rnd *hx.Rand, caseNo int, nops int, withStore bool, inflightPath string) (string, map[string]interface{}, map[string]int) {
+// corpusCase: a recorded history (one that exposed a seeded or real defect) replayed before the random ones
+type corpusCase struct {
+	Name       string `json:"name"`
+	HitForPass string `json:"hit_for_pass"`
+	WithStore  bool   `json:"with_store"`
+	Ops        []op   `json:"ops"`
+	// Repeat: run the history this many times, each time on another key (default 1)
+	Repeat int `json:"repeat,omitempty"`
+}
+
+func runCase(t *testing.T, rnd *hx.Rand, caseNo int, nops int, withStore bool, inflightPath string, script *corpusCase) (string, map[string]interface{}, map[string]int) {
 	dist := map[string]int{}
 	hfpCfg := []string{"2s", "2s", "3s", "0s", "-1s", "1s", "5m", "500ms"}[rnd.Intn(8)]
+	if script != nil {
+		hfpCfg, withStore = script.HitForPass, script.WithStore
+	}
 	d, _ := time.ParseDuration(hfpCfg)
 	hfp := int(d.Seconds())
 	name := fmt.Sprintf("c%d", caseNo)
-	w := &world{key: []byte("GET example.com http://example.com/res?x=1"), hasStore: withStore, storeURL: fmt.Sprintf("fake://%s", name)}
+	w := &world{url: fmt.Sprintf("http://example.com/res?x=%d", caseNo), hasStore: withStore, storeURL: fmt.Sprintf("fake://%s", name)}
 	var frames []string
 	var implViolations []map[string]interface{}
 	var repFrames []interface{}
@@ -370,7 +387,7 @@ func runCase(t *testing.T, rnd *hx.Rand, caseNo int, nops int, withStore bool, i
 		s := server.NewServer(server.ServerOption{Cache: name})
 		w.handler = server.NewCache(s)
 		// the key as the middleware builds it
-		req := httptest.NewRequest("GET", "http://example.com/res?x=1", nil)
+		req := httptest.NewRequest("GET", w.url, nil)
 		w.key = append([]byte{}, server.VerifGetKey(req)...)
 		// a filler key in the same shard (size 8 => 8 shards x 1 slot): looking it up evicts ours
 		disp := cache.GetDispatcher(name)
@@ -446,7 +463,8 @@ func runCase(t *testing.T, rnd *hx.Rand, caseNo int, nops int, withStore bool, i
 		if calm {
 			dist["calm-case"]++
 		}
-		for k := 0; k < nops; k++ {
+		// plan: the next operation of a random history (false = nothing applicable this round)
+		plan := func() (op, bool) {
 			ups := upstreamThreads()
 			x := rnd.Intn(100)
 			if calm {
@@ -457,21 +475,65 @@ func runCase(t *testing.T, rnd *hx.Rand, caseNo int, nops int, withStore bool, i
 			}
 			switch {
 			case x < 34 && len(w.threads) < 14:
-				pass := rnd.Chance(6)
-				w.arrive(pass)
-				record(op{Kind: "arrive", Pass: pass}, fmt.Sprintf("(OpArrive %s)", hx.Bool(pass)))
-				dist["arrive"]++
+				return op{Kind: "arrive", Pass: rnd.Chance(6)}, true
 			case x < 58 && len(ups) > 0:
-				release(ups[rnd.Intn(len(ups))], genOutcome())
+				return op{Kind: "release", Thread: ups[rnd.Intn(len(ups))], Outcome: genOutcome()}, true
 			case x < 78:
 				ms := []int{200, 400, 600, 1000, 1000, 1500, 2000, 3000, 5000, 301000}[rnd.Intn(10)]
 				if calm {
 					ms = []int{1000, 2000, 4000, 8000, 8000, 20000, 100000, 250000}[rnd.Intn(8)]
 				}
-				time.Sleep(time.Duration(ms) * time.Millisecond)
-				record(op{Kind: "tick", Ms: ms}, fmt.Sprintf("(OpTick %d)", ms))
-				dist["tick"]++
+				return op{Kind: "tick", Ms: ms}, true
 			case x < 81:
+				return op{Kind: "purge-elsewhere:" + []string{"absent-cache", "neighbour-cache", "other-key"}[rnd.Intn(3)]}, true
+			case x < 84:
+				return op{Kind: "purge", DelOK: !rnd.Chance(15) || !withStore, AllCaches: rnd.Bool()}, true
+			case x < 89:
+				return op{Kind: "evict"}, true
+			case x < 92 && allDone():
+				return op{Kind: "restart"}, true
+			case x < 96 && withStore:
+				kind := []string{"none", "junk", "junk8", "st1", "st0", "immortal", "hit-nil", "expired", "hfp", "hit", "cut", "cuthfp"}[rnd.Intn(12)]
+				if kind == "cut" || kind == "cuthfp" {
+					kind = fmt.Sprintf("%s:%d", kind, 1+rnd.Intn(15))
+				}
+				return op{Kind: "corrupt", Corrupt: kind}, true
+			case withStore:
+				return op{Kind: "faults", ReadOK: !rnd.Chance(40), WriteOK: !rnd.Chance(40)}, true
+			}
+			return op{}, false
+		}
+		// exec: run one operation (random or scripted) on the implementation and record the frame
+		exec := func(o op) {
+			switch {
+			case o.Kind == "arrive":
+				if len(w.threads) >= 20 {
+					return
+				}
+				w.arrive(o.Pass)
+				record(op{Kind: "arrive", Pass: o.Pass}, fmt.Sprintf("(OpArrive %s)", hx.Bool(o.Pass)))
+				dist["arrive"]++
+			case o.Kind == "release":
+				inUpstream := false
+				for _, u := range upstreamThreads() {
+					if u == o.Thread {
+						inUpstream = true
+					}
+				}
+				if !inUpstream {
+					return // scripted history that no longer applies at this point
+				}
+				if o.Outcome.Kind == "cacheable" || o.Outcome.Kind == "uncacheable" {
+					if o.Outcome.RID >= nextRID {
+						nextRID = o.Outcome.RID + 1
+					}
+				}
+				release(o.Thread, o.Outcome)
+			case o.Kind == "tick":
+				time.Sleep(time.Duration(o.Ms) * time.Millisecond)
+				record(op{Kind: "tick", Ms: o.Ms}, fmt.Sprintf("(OpTick %d)", o.Ms))
+				dist["tick"]++
+			case strings.HasPrefix(o.Kind, "purge-elsewhere"):
 				// purges that must not touch this key in this cache: a cache name that does not exist, the same
 				// key in a neighbouring cache, another key in this cache (the model sees a tick of 0 ms)
 				resident := func() int {
@@ -490,13 +552,14 @@ func runCase(t *testing.T, rnd *hx.Rand, caseNo int, nops int, withStore bool, i
 					return string(w.fs.data[string(w.key)])
 				}
 				r0, s0 := resident(), stored()
-				variant := []string{"absent-cache", "neighbour-cache", "other-key"}[rnd.Intn(3)]
+				variant := strings.TrimPrefix(o.Kind, "purge-elsewhere:")
 				switch variant {
 				case "absent-cache":
 					cache.RemoveHTTPCache("no-such-cache", w.key)
 				case "neighbour-cache":
 					cache.RemoveHTTPCache(name+"-before", w.key)
 				default:
+					variant = "other-key"
 					cache.RemoveHTTPCache(name, []byte("GET example.com http://example.com/never-requested"))
 				}
 				if r1, s1 := resident(), stored(); r1 != r0 || s1 != s0 {
@@ -505,15 +568,15 @@ func runCase(t *testing.T, rnd *hx.Rand, caseNo int, nops int, withStore bool, i
 				}
 				record(op{Kind: "purge-elsewhere:" + variant}, "(OpTick 0)")
 				dist["purge-elsewhere"]++
-			case x < 84:
-				delOK := !rnd.Chance(15) || !withStore
+			case o.Kind == "purge":
+				delOK := o.DelOK || !withStore
 				if withStore {
 					w.fs.mu.Lock()
 					w.fs.delErr = !delOK
 					w.fs.mu.Unlock()
 				}
 				target := name
-				if rnd.Bool() {
+				if o.AllCaches {
 					target = ""
 				}
 				cache.RemoveHTTPCache(target, w.key)
@@ -522,32 +585,47 @@ func runCase(t *testing.T, rnd *hx.Rand, caseNo int, nops int, withStore bool, i
 					w.fs.delErr = false
 					w.fs.mu.Unlock()
 				}
-				record(op{Kind: "purge", DelOK: delOK}, fmt.Sprintf("(OpPurge %s)", hx.Bool(delOK)))
+				record(op{Kind: "purge", DelOK: delOK, AllCaches: o.AllCaches}, fmt.Sprintf("(OpPurge %s)", hx.Bool(delOK)))
 				dist["purge"]++
-			case x < 89:
+			case o.Kind == "evict":
 				cache.GetDispatcher(name).GetHTTPCache(w.filler)
 				record(op{Kind: "evict"}, "OpEvict")
 				dist["evict"]++
-			case x < 92 && allDone():
+			case o.Kind == "restart":
+				if !allDone() {
+					return
+				}
 				cache.ResetDispatchers(nil)
 				cache.ResetDispatchers(w.cfg)
 				record(op{Kind: "restart"}, "OpRestart")
 				dist["restart"]++
-			case x < 96 && withStore:
-				kind := []string{"none", "junk", "junk8", "st1", "st0", "immortal", "hit-nil", "expired", "hfp", "hit", "cut", "cuthfp"}[rnd.Intn(12)]
-				if kind == "cut" || kind == "cuthfp" {
-					kind = fmt.Sprintf("%s:%d", kind, 1+rnd.Intn(15))
+			case o.Kind == "corrupt":
+				if !withStore {
+					return
 				}
-				term := w.corrupt(kind, time.Now().Unix())
-				record(op{Kind: "corrupt", Corrupt: kind}, "(OpCorrupt "+term+")")
-				dist["corrupt:"+strings.SplitN(kind, ":", 2)[0]]++
-			case withStore:
-				rd, wr := !rnd.Chance(40), !rnd.Chance(40)
+				term := w.corrupt(o.Corrupt, time.Now().Unix())
+				record(op{Kind: "corrupt", Corrupt: o.Corrupt}, "(OpCorrupt "+term+")")
+				dist["corrupt:"+strings.SplitN(o.Corrupt, ":", 2)[0]]++
+			case o.Kind == "faults":
+				if !withStore {
+					return
+				}
 				w.fs.mu.Lock()
-				w.fs.readErr, w.fs.writeErr = !rd, !wr
+				w.fs.readErr, w.fs.writeErr = !o.ReadOK, !o.WriteOK
 				w.fs.mu.Unlock()
-				record(op{Kind: "faults", ReadOK: rd, WriteOK: wr}, fmt.Sprintf("(OpFaults %s %s)", hx.Bool(rd), hx.Bool(wr)))
+				record(op{Kind: "faults", ReadOK: o.ReadOK, WriteOK: o.WriteOK}, fmt.Sprintf("(OpFaults %s %s)", hx.Bool(o.ReadOK), hx.Bool(o.WriteOK)))
 				dist["faults"]++
+			}
+		}
+		if script != nil {
+			for _, o := range script.Ops {
+				exec(o)
+			}
+		} else {
+			for k := 0; k < nops; k++ {
+				if o, ok := plan(); ok {
+					exec(o)
+				}
 			}
 		}
 		// drain: release everything that is in the upstream until nothing is
@@ -647,6 +725,9 @@ func storeCannotOpen(sum *hx.Summary) {
 	}
 }
 
+//go:embed corpus.json
+var corpusJSON []byte
+
 // TestFlight is the `flight` family entry point.
 func TestFlight(t *testing.T) {
 	out := os.Getenv("PV_OUT")
@@ -657,16 +738,36 @@ func TestFlight(t *testing.T) {
 	n := envInt("PV_N", 50)
 	rnd := hx.NewRand(seed)
 	sum := hx.NewSummary("flight", seed)
-	sum.Rule = "one case = one history of 30-45 ops on one cache key through the real cache middleware (server.NewCache over a real size-8 dispatcher, fake store in half of the cases) under testing/synctest: arrive (GET, 6% POST) / release of an in-flight upstream exchange with outcome {cacheable ttl 1,2,3,5 | uncacheable | error | nil response | panic} / tick 200 ms..301 s / purge (named or all caches, delete ok or failing) / purge elsewhere (absent cache name, same key in a neighbouring cache, another key: must leave this key's resident entry and store record alone) / evict (filler key in the same 1-slot shard) / restart (fresh dispatcher on the same store) / store corruption (missing, truncated in the response / after 8 bytes / 1-15 bytes short inside the trailing time fields, status word 1 or 0, expiry 0, nil response, expired, hit-for-pass, foreign hit) / store read-write fault modes; every history ends by draining the upstream; before the histories, two scenarios with a store that cannot be opened (miss, fill, hit, purge, miss must work from memory); observation after each op at quiescence = state of every request (parked / in upstream with label / done with label, response id, age) and the decoded store record; non-trivial = history with at least one parked request or one hit; distinct by op sequence"
+	sum.Rule = "one case = one history of 30-45 ops on one cache key through the real cache middleware (server.NewCache over a real size-8 dispatcher, fake store in half of the cases) under testing/synctest: arrive (GET, 6% POST) / release of an in-flight upstream exchange with outcome {cacheable ttl 1,2,3,5 | uncacheable | error | nil response | panic} / tick 200 ms..301 s / purge (named or all caches, delete ok or failing) / purge elsewhere (absent cache name, same key in a neighbouring cache, another key: must leave this key's resident entry and store record alone) / evict (filler key in the same 1-slot shard) / restart (fresh dispatcher on the same store) / store corruption (missing, truncated in the response / after 8 bytes / 1-15 bytes short inside the trailing time fields, status word 1 or 0, expiry 0, nil response, expired, hit-for-pass, foreign hit) / store read-write fault modes; every history ends by draining the upstream; before the histories, two scenarios with a store that cannot be opened (miss, fill, hit, purge, miss must work from memory) and the recorded histories of flight/corpus.json (each once exposed a defect or a seeded change); observation after each op at quiescence = state of every request (parked / in upstream with label / done with label, response id, age) and the decoded store record; non-trivial = history with at least one parked request or one hit; distinct by op sequence"
 	header := "From Coq Require Import List ZArith.\nImport ListNotations.\nFrom Pike Require Import Model.Sys Corr.SysCorr.\n"
 	w := hx.NewCaseWriter(out, "flight", header, "list fl_case", "check_cases", 6, sum)
 	distinct := hx.NewDistinct()
 	inflight := filepath.Join(out, "inflight.json")
 	storeCannotOpen(sum)
-	for i := 0; i < n; i++ {
+	var corpus []corpusCase
+	var loaded []corpusCase
+	if err := json.Unmarshal(corpusJSON, &loaded); err != nil {
+		t.Fatalf("corpus.json: %v", err)
+	}
+	for _, cc := range loaded {
+		for k := 0; k < max(cc.Repeat, 1); k++ {
+			corpus = append(corpus, cc)
+		}
+	}
+	for i := -len(corpus); i < n; i++ {
 		nops := 30 + rnd.Intn(16)
 		withStore := i%2 == 1
-		term, rep, dist := runCase(t, rnd, i, nops, withStore, inflight)
+		var script *corpusCase
+		caseNo := i
+		if i < 0 {
+			script = &corpus[i+len(corpus)]
+			caseNo = 100000 + i + len(corpus)
+			sum.Count("corpus-case")
+		}
+		term, rep, dist := runCase(t, rnd, caseNo, nops, withStore, inflight, script)
+		if script != nil {
+			rep["corpus"] = script.Name
+		}
 		if ivs, ok := rep["impl_violations"].([]map[string]interface{}); ok {
 			for _, iv := range ivs {
 				iv["hit_for_pass"], iv["with_store"], iv["frames"] = rep["hit_for_pass"], rep["with_store"], rep["frames"]
